@@ -1,0 +1,17 @@
+//go:build verif
+
+package result
+
+import (
+	beaconchain "github.com/keep-network/keep-core/pkg/beacon/chain"
+	"github.com/keep-network/keep-core/pkg/beacon/gjkr"
+)
+
+// Verification hook for property C12 (thin wrapper, no behaviour of its own).
+
+// VerifC12ConvertGjkrResult exposes convertGjkrResult, the conversion Publish
+// runs on the GJKR result whose group the result signing member later uses to
+// admit messages.
+func VerifC12ConvertGjkrResult(gjkrResult *gjkr.Result) *beaconchain.DKGResult {
+	return convertGjkrResult(gjkrResult)
+}
